@@ -217,6 +217,7 @@ structure St where
   taintAdd : Bool := false     -- F1 trigger happened
   live : Nat := 2              -- live handles
   sused : Nat → Bool := fun s => s == 0   -- stream ids handed out
+  est : Nat → Bool := fun s => s == 0     -- streams that have been published in a reader group
 
 inductive Label where
   | call (t : Nat) (o : Outer) (g v ng ns : Nat)
@@ -700,7 +701,7 @@ def stepRun (σ0 : St) (t : Nat) (inp : Nat) : Obs × St :=
       let σ1 := σ
       if okk then
         let σ2 := { σ1 with cur := ng, pos := upd σ0.pos x.ns raw, ncons := upd σ0.ncons x.ns 1,
-                            start := upd σ0.start x.ns raw, dlv := upd σ0.dlv x.ns [],
+                            start := upd σ0.start x.ns raw, dlv := upd σ0.dlv x.ns [], est := upd σ0.est x.ns true,
                             live := (if x.outer = Outer.intoMultiFut then σ0.live else σ0.live + 1), taintAdd := σ0.taintAdd || (σ0.pos s != raw) }
         if x.outer = Outer.intoMultiFut then (o, σ2.gotoF t .dr1 [.sc]) else (o, σ2.gotoF t (.ret .new) [.sc])
       else (o, σ1.gotoF t (.a2 σ0.cur) [.acq])
